@@ -10,6 +10,8 @@ Monitors:
                   float(head) == base score   -> accepted, else score-mismatch error
                 (head AND vector part faulty: either applicable error is accepted)
 """
+import re
+
 from .. import obs
 from ..bootstrap import lib
 from ..spec import tables as T
@@ -110,6 +112,9 @@ def check_object(P, ver, s):
         pass
     if rh != want:
         P.violation("rh-format", "C12:v%s:rh_vector-is-not-score-slash-clean-vector" % ver, case, observed=repr(rh), expected=repr(want))
+    elif not re.match(r"^(10\.0|[0-9]\.[0-9])/", rh):
+        # "the base score printed with one decimal": digits, a point, one digit (a sign, an exponent, 'None' are not)
+        P.violation("rh-format", "C12:v%s:rh_vector-score-text-is-not-a-one-decimal-number" % ver, case, observed=repr(rh))
     P.ev("round-trip")
     ok, o2 = obs.call(L.CLS[ver].from_rh_vector, rh)
     if not ok:
@@ -179,6 +184,8 @@ def heads_for(sc):
             ("not-a-number", t + "x"), ("not-a-number", "x" + t), ("not-a-number", "--" + t), ("not-a-number", "0x10"),
             ("not-a-number", t + " " + t), ("not-a-number", "None"), ("not-a-number", "."), ("not-a-number", "e1"),
             ("not-a-number", "CVSS"), ("not-a-number", t[:-1] + "٫" + t[-1]), ("not-a-number", "½")]
+    # format / template metacharacters (the head is user text and ends up in messages)
+    out += [("not-a-number", x) for x in ("{score}", "{0}", "{", "}", "{}", "{0", "%s", "%(x)s", "%", "$x", "${score}", "\\", t + "{0}", "{" + t + "}")]
     return out
 
 
@@ -214,6 +221,9 @@ def shard(P, ver, idx, n, seed):
         for op, mstr in rng.sample(muts, min(25, len(muts))):
             for head in ("%.1f" % sc[0], "0.0", "abc"):
                 check_rh_string(P, ver, head + "/" + mstr, "mutant-vector:" + ("good-head" if head[0] != "a" and head != "0.0" else head))
+        # format / template metacharacters in the vector part, behind the correct head
+        for junk in ("{vector}", "{0}", "{", "}", s + "{0}", "{" + s + "}", "%s", s + "%(x)s", s.replace(":", "{}", 1), "$" + s):
+            check_rh_string(P, ver, "%.1f/" % sc[0] + junk, "format-metacharacters-in-vector-part")
         # cross-version vector parts
         for over in T.VERSIONS:
             if over != ver:
